@@ -774,7 +774,7 @@ fn tags(ops: &[Op], annots: &str, spec_words: &str, out: &mut CaseOutcome) -> bo
                     t.insert("scope:\\global-overridden-by-globaldefs<0".into());
                 }
                 if a == "N" {
-                    t.insert("boundary:let-to-undefined-name".into());
+                    t.insert("finding-C01-d:let-from-undefined-name".into());
                 }
                 if depth > 0 {
                     assigned_in_group = true;
@@ -965,7 +965,7 @@ fn random_program(r: &mut Rng) -> Vec<Op> {
     // a small pool of hot targets so that the same target is hit again and again
     let all_vars: Vec<(i64, i64)> = vec![
         (0, 1), (0, 2), (0, 300), (1, 1), (1, 2), (2, 1), (2, 9), (3, 1), (3, 2), (3, 255), (4, 124), (4, 33), (5, 58), (5, 124),
-        (6, 1), (6, 2), (6, 3), (0, 32767),
+        (6, 1), (6, 2), (6, 3), (0, 32767), (0, 0), (3, 0), (1, 0), (2, 32767),
     ];
     let all_cmds: Vec<(i64, i64)> = vec![(0, 0), (0, 1), (0, 2), (0, 3), (1, 0), (1, 1)];
     let mut pool = Pool { vars: vec![], cmds: vec![] };
@@ -1336,14 +1336,16 @@ impl Property for C01 {
         self.programs += 1;
         let reply = drv.ask(case);
         let parts: Vec<&str> = reply.split(" | ").map(|s| s.trim()).collect();
-        if parts.len() != 10 {
+        if parts.len() != 11 {
             out.fail(Kind::ImplVsModel, "driver", "driver rejected the case", format!("reply `{reply}`"));
             return out;
         }
         let annots: Vec<&str> = parts[1].split_ascii_whitespace().collect();
         let src = render(&ops, &annots);
         let real = run_real(&src);
-        let spec = self.expected(&ops, parts[0]);
+        // S = TeX's own semantics (parts[10]); parts[0] is the same with finding C01-d built in (= M by theorem)
+        let spec = self.expected(&ops, parts[10]);
+        let undef_let = annots.iter().any(|a| *a == "N");
         let model = self.expected(&ops, parts[9]);
         self.reads_compared += real.reads.len() as u64;
         out.nontrivial = tags(&ops, parts[1], parts[0], &mut out);
@@ -1351,6 +1353,10 @@ impl Property for C01 {
         // S vs M (sanity: impossible while `vm_refines_run` holds)
         if parts[0] != parts[9] {
             out.fail(Kind::ModelVsSpec, "program", "model and spec differ", format!("S `{}` M `{}`", parts[0], parts[9]));
+        }
+        // `vm_refines_run_partial`: without a \let from an undefined name the two specifications coincide
+        if !undef_let && parts[0] != parts[10] {
+            out.fail(Kind::ModelVsSpec, "program", "TeX spec and code-compatible spec differ", format!("S `{}` TeX `{}`", parts[0], parts[10]));
         }
         // I vs S
         if let Some((sig, detail)) = diff(&ops, &real, &spec) {
@@ -1365,7 +1371,10 @@ impl Property for C01 {
                     }
                 }
             }
-            let (kind, sig) = if let Some((_, v)) = best {
+            let (kind, sig) = if undef_let && diff(&ops, &real, &model).is_none() {
+                // exactly the model = TeX except for the recorded deviation, and the program did run such a \let
+                (Kind::ImplVsSpec, "let from an undefined name keeps the old meaning".to_string())
+            } else if let Some((_, v)) = best {
                 let mut s = String::from("pre-fix:");
                 for (bit, l) in [(0, 'a'), (1, 'b'), (2, 'c')] {
                     if v & (1 << bit) == 0 {
